@@ -1,7 +1,16 @@
-use tyme4rs::tyme::solar::*;
+use tyme4rs::tyme::solar::{SolarTerm, SolarTime};
+use tyme4rs::tyme::Tyme;
+use tyme4rs::tyme::Culture;
 fn main() {
-  for (y,m,d) in [(1,1,1),(1,1,9),(8,11,1),(9,3,1),(23,11,1),(25,3,31),(236,11,1),(237,3,31),(239,11,1),(240,3,31)] {
-    let j = (SolarDay::from_ymd(y,m,d).get_julian_day().get_day() + 0.5).floor() as i64;
-    println!("{}-{}-{} {}", y,m,d,j);
+  for y in [24isize, 25, 240, 9, 237] {
+    let li = SolarTerm::from_index(y, 3).get_julian_day().get_solar_time();
+    println!("lichun {} = {}", y, li.to_string());
+    for off in [-6 * 86400isize, -3600, 3600, 6 * 86400] {
+      let t = li.next(off);
+      let h = t.get_sixty_cycle_hour();
+      let ld = t.get_lunar_hour().get_lunar_day();
+      let d = t.get_solar_day().get_sixty_cycle_day();
+      println!("  {} hourview year={} month={} | dayview year={} month={} | lunar {} (year {})", t.to_string(), h.get_year().get_name(), h.get_month().get_name(), d.get_year().get_name(), d.get_month().get_name(), ld.to_string(), ld.get_lunar_month().get_lunar_year().get_year());
+    }
   }
 }
